@@ -97,11 +97,14 @@ def guarded_class():
         deny_attr = frozenset()     # (object index or '*', name)
         deny_item = frozenset()     # (sequence name, index)
         log = None
+        # a lenient guard does not itself refuse underscore names: then
+        # that protection has to come from the engine
+        lenient = False
 
         def guarded_getattr(self, inst, name, default=mark):
             if self.log is not None:
                 self.log.append(('attr', repr(inst)[:12], name))
-            if name[:1] == '_':
+            if name[:1] == '_' and not self.lenient:
                 raise Unauthorized(name)
             i = getattr(inst, 'i', None) if isinstance(inst, P) else None
             if isinstance(inst, P) and (('*', name) in self.deny_attr or
@@ -376,6 +379,9 @@ def render(ch, attr, policy, run, guarded=True, index=0):
     """-> (outcome, guard log)"""
     G = guarded_class()
     from DocumentTemplate import HTML
+    lenient = guarded == 'lenient'
+    if lenient:
+        guarded = True
     cls = G if guarded else HTML
     numeric = ch.get('numeric', False)
     make = None
@@ -392,6 +398,7 @@ def render(ch, attr, policy, run, guarded=True, index=0):
     log = []
     if guarded is True:
         t.log = log
+        t.lenient = lenient
         t.deny_attr = frozenset(tuple(x) for x in policy.get('attr', ()))
         t.deny_item = frozenset(tuple(x) for x in policy.get('item', ()))
     ns = dict(o=objs[1], s=Seq('s', objs), lst=list(objs),
@@ -407,6 +414,7 @@ def render(ch, attr, policy, run, guarded=True, index=0):
         if guarded is True:
             sub.log, sub.deny_attr, sub.deny_item = log, t.deny_attr, \
                 t.deny_item
+            sub.lenient = lenient
         ns['sub'] = sub
     if ch.get('psub'):
         ns['psub'] = HTML(ch['psub'].replace('{A}', attr))
@@ -434,6 +442,8 @@ def check(case):
     group = 'statistics' if name.startswith('statistics') else name
     mode = 'ac' if guarded == 'ac' else (
         'guarded' if guarded else 'unguarded')
+    if guarded == 'lenient':
+        mode = 'guarded'
     klass = case['klass']
     # refused data must not be observable
     if klass in ('denied', 'underscore', 'denied-item'):
@@ -494,6 +504,10 @@ def cases():
                         # same case under RestrictedDTML + AccessControl
                         yield dict(channel=ch['name'], attr=attr,
                                    policy=pol, guarded='ac', klass=klass)
+                # ... and with a guard that does not itself refuse '_' names
+                if klass == 'underscore' and not ch.get('tree'):
+                    yield dict(channel=ch['name'], attr=attr, policy={},
+                               guarded='lenient', klass=klass)
                 # the underscore rule holds without any guard, too
                 if klass == 'underscore' and not ch.get('expr') and \
                         'getattr' not in ch['name'] and \
@@ -638,7 +652,8 @@ def run_shard(shard):
                  klass=['class:' + case['klass'],
                         'channel:' + case['channel'],
                         'ac' if case['guarded'] == 'ac' else (
-                            'guarded' if case['guarded'] else
+                            'lenient-guard' if case['guarded'] == 'lenient'
+                            else 'guarded' if case['guarded'] else
                             'unguarded')],
                  distinct_by_construction=True)
         if bad:
